@@ -190,6 +190,23 @@ PROPS = {
         "level_note": "trusted: Lean kernel; harness/check; katib-config parsing (katibconfig.GetSuggestionConfigData) exercised but not modelled",
         "assumptions": ["labels are compared as sets (Go maps)"],
     },
+    "C12": {
+        "prop_files": ["Katib/Props/C12.lean"],
+        "n": {"quick": 4000, "thorough": 200000},
+        "rule": "pods (1-3 containers named main/helper/istio-proxy/training incl. duplicates, explicit commands python/sh/bash/`sh -c`/`bash -c`/`sh -x`/binary, args, env, mounts, "
+                "volumes, labels incl. a stale trial label) x Trials (seven collector kinds incl. Custom with a collector named like the primary container and Push; primaryPodLabels "
+                "nil/matching/mismatching; stop rules nil/empty/1-2; filters; file and directory sources) x environment (katib-config collector entry present/absent, waitAllProcesses, "
+                "Experiment present/absent, Suggestion present/absent, suggestion_trial_dir) through the real SidecarInjector.MutationRequired + Mutate on a fake client; every fourth case "
+                "drives MutationRequired over a generated acyclic ownership graph (Job/ReplicaSet/Deployment/StatefulSet objects, dangling owners, Trial references of other API groups)",
+        "trusted": ["sigs.k8s.io/yaml round trip of the generated katib-config", "fake client as API server", "filepath.Dir / filepath.Join / env-derived DB manager address computed Go-side and passed in"],
+        "modelled": ["SidecarInjector.Mutate, getMetricsCollectorContainer, getMetricsCollectorArgs, mutateMetricsCollectorVolume, mutateSuggestionVolume, mutatePodMetadata, mutatePodEnv, "
+                     "wrapWorkerContainer, isPrimaryPod, needWrapWorkerContainer, getKatibJob as Katib.Pod.*"],
+        "level_text": "Lean theorems C12_light(+_keeps) (non-primary and push pods: labels only, never rejected), C12_full (original containers kept in order, exactly one collector appended, "
+                      "process-namespace sharing, labels), C12_volume, C12_args(+_path), C12_command_verbatim, C12_unrelated, C12_owner_walk for every pod/Trial/environment; differential run of the "
+                      "real webhook against the model + pod-level oracle",
+        "level_note": "trusted: Lean kernel; harness/check; pods whose primary container has no explicit command (image-registry lookup) and JSON patch generation in Handle are not modelled",
+        "assumptions": ["the primary container has an explicit command (otherwise the webhook asks the image registry)", "ownership graphs are acyclic (the API server guarantees it via UIDs)"],
+    },
     "C13": {
         "prop_files": ["Katib/Props/C13.lean"],
         "n": {"quick": 8000, "thorough": 300000},
